@@ -216,7 +216,7 @@ class C04(SingleRun):
             "completions, duplicates, every kind of status request, polls and restarts; every request in every state is checked for "
             "side effects when rejected; non-trivial = >= 1 late completion and >= 1 rejected request")
     faults = dict(p_fail=0.3, poll_skip=0.05, poll_twice=0.1, restart=0.05, dup=0.1, bad_request=0.08,
-                  suffix_requests=0.6, pause=0.02, cancel=0.01)
+                  suffix_requests=0.6, pause=0.02, cancel=0.01, act_cancel_solo=0.03, early_cancel=0.15, early_pause=0.1)
 
     def tune_faults(self, K, faults):
         f = SingleRun.tune_faults(self, K, faults)
@@ -333,7 +333,8 @@ class C12(SingleRun):
     RULE = ("with-items tasks over n = 0..6 items, concurrency absent / literal / expression; item outcome vectors; item completions in "
             "any order interleaved with polls, pause/cancel, restarts; non-trivial = n >= 3, concurrency < n and >= 1 item completion "
             "delivered out of index order")
-    faults = dict(poll_skip=0.15, poll_twice=0.15, restart=0.05, pause=0.03, resume_early=0.1, cancel=0.01, p_fail=0.1)
+    faults = dict(poll_skip=0.15, poll_twice=0.15, restart=0.05, pause=0.03, resume_early=0.1, cancel=0.01, p_fail=0.1,
+                  act_cancel_solo=0.02, cancel_while_pausing=0.1)
     require_features = ["with_items"]
 
     def profile(self, seed, tier, as_prop=None):
@@ -374,7 +375,8 @@ class C15(SingleRun):
             "pause/resume/cancel, inadmissible requests, rerun, action failures); any exception other than the documented rejections "
             "leaving instantiate/inspect/compose/any conductor call is a violation; non-trivial = >= 1 fault kind fired and >= 10 API calls")
     faults = dict(poll_skip=0.1, poll_twice=0.1, restart=0.05, dup=0.05, pause=0.03, resume_early=0.1, cancel=0.02,
-                  bad_request=0.05, rerun=0.4, suffix_requests=0.2, pending=0.04)
+                  bad_request=0.05, rerun=0.4, suffix_requests=0.2, pending=0.04, act_cancel_solo=0.02, act_paused=0.03, early_pause=0.2, early_cancel=0.1, cancel_while_pausing=0.1,
+                  cancel_at_retry=0.03, pause_at_retry=0.03)
 
     def nontrivial(self, r):
         s = r["stats"]
@@ -519,7 +521,8 @@ class C18(SingleRun):
     RULE = ("all shapes with emphasis on multi-referenced tasks, with-items, loops, late arrivals, retries, reruns; consecutive "
             "persisted states diffed after every API call; non-trivial = the run appended >= 2 records for one task id or merged >= 2 "
             "arrivals into one entry")
-    faults = dict(poll_skip=0.1, poll_twice=0.1, restart=0.03, dup=0.05, pause=0.02, cancel=0.01, rerun=0.4, p_fail=0.15)
+    faults = dict(poll_skip=0.1, poll_twice=0.1, restart=0.03, dup=0.05, pause=0.02, cancel=0.01, rerun=0.4, p_fail=0.15,
+                  act_cancel_solo=0.02, act_paused=0.03, cancel_at_retry=0.03, pause_at_retry=0.03)
     kf_share = 0.2
 
     def profile(self, seed, tier, as_prop=None):
@@ -550,7 +553,8 @@ class C05(SingleRun):
             "and full persisted form compared after every call; non-trivial = >= 2 restores, at least one with a with-items task, a "
             "retry or a partially satisfied join live")
     faults = dict(poll_skip=0.05, poll_twice=0.1, restart=0.3, dup=0.05, pause=0.02, cancel=0.01, rerun=0.3, p_fail=0.15,
-                  bad_request=0.02)
+                  bad_request=0.02, pending=0.03, act_cancel_solo=0.02, act_paused=0.03, early_pause=0.2, early_cancel=0.1, cancel_while_pausing=0.1,
+                  cancel_at_retry=0.03, pause_at_retry=0.03)
     world = dict(twin=True)
 
     def tune_faults(self, K, faults):
